@@ -6,11 +6,27 @@ nothing is copied or re-implemented.  Three clauses, each with its own bound:
 1. naming   [exhaustive]  getH5GroupName over all 0 <= cycle,node < 100 x 4 label kinds: injective, label-less
                           names sort chronologically, are the groups genTimeSteps lists; labelled ones are not.
 2. seq      [bounded]     seeded sequences (length <= 6 quick / <= 10 thorough) of mutate | write | load | history |
-                          merge | split on the smallest test reactor (3 assemblies so that two can be swapped).
-                          Oracle = values recorded from the live reactor at write time (by serial number).
+                          merge | split | new | adopt on the smallest test reactor (3 assemblies so that two can be
+                          swapped).  Oracle = values recorded from the live reactor at write time (by serial number).
+                          Identity of objects across snapshots (ident.* / hist.ghost-step.*): `new` fabricates a fresh
+                          assembly (into the core or the spent fuel pool) in the live reactor between writes, `adopt`
+                          loads a written snapshot and carries on with the LOADED reactor as the live one.  The harness
+                          tracks every assembly/block by its own id (independent of armi's serial numbers) and records at
+                          each write which of them existed.  Clauses: a newly made object never carries a serial number
+                          of any object stored in any snapshot of the database, nor of another live object, whatever
+                          was loaded before (also an OLDER snapshot); the objects written into one snapshot have
+                          pairwise distinct serial numbers; the history of an object has no entry for a step at which
+                          it did not exist (at most the current step, with its own live value) and is queried right
+                          after every `new` as well as by the history ops.  Stated within one session (one
+                          interpreter, as every sequence here): what a LATER session that loads an older snapshot of
+                          the file and makes new objects may assume about serial numbers is not covered.
 3. abort    [bounded]     real Operator + full default interface stack + DatabaseInterface, 2 cycles x 2 burn steps;
                           a probe interface raises at one (hook, stack position, cycle, node); oracle = naive walk of
                           the standard run + what the probe itself recorded.
+
+Violation ids of the identity clauses name the circumstance of the creation: .no-load (nothing loaded from the database
+before), .after-load (some snapshot was loaded before, the live reactor is the original one), .in-loaded-reactor (the live
+reactor is one loaded from the database).
 
 Replay: --replay '{"clause":"seq","ops":[...]}' | '{"clause":"abort","hook":..,"pos":..,"cycle":..,"node":..}'
         | '{"clause":"naming"}'
@@ -32,10 +48,14 @@ armi_ready()
 
 B = Bounded(
     rule="(1) every (cycle,node,label) name, cycle,node<100, label in {none,EOL,error,debug-style}; "
-    "(2) seeded op sequences mutate|write|load|history|merge|split on the smallest reactor, distinct = distinct op list "
+    "(2) seeded op sequences mutate|write|load|history|merge|split|new (fresh assembly made in the live reactor, core or "
+    "spent fuel pool)|adopt (carry on with a loaded snapshot as the live reactor) on the smallest reactor, objects tracked by a "
+    "harness-owned id so that serial numbers of new objects, of stored objects and of live objects can be told apart; general mix "
+    "plus an identity-focused mix (write/new/load/adopt/history); distinct = distinct op list "
     "with >=1 accepted write and >=1 read-back; (3) one injected failure per (hook,stack position,cycle,node) of a "
     "2-cycle x 2-burn-step standard run with the full default stack, plus completed runs per probe position",
-    bound="naming exhaustive (40000 names); sequences: 9 scripted (length<=6) + seeded, quick 30 of length<=6, thorough 600 of length<=10; "
+    bound="naming exhaustive (40000 names); sequences: 13 scripted (length<=7; 4 of them write/new/write/load-or-adopt an OLDER snapshot/new/query-or-write) "
+    "+ seeded, quick 21 general of length<=6 + 8 identity-focused of length<=8, thorough 591 general + 120 identity-focused of length<=10; "
     "aborts: quick seeded 14 of 96 crash points + 2 completed runs, thorough all 96 + 8 completed runs",
 )
 
@@ -308,9 +328,12 @@ def raw_diff(a, b, ignore=()):
     return [k for k in keys if a.get(k) != b.get(k)][:5]
 
 
-def gen_sequence(rng, maxlen):
-    """A concrete, JSON-able op list; run-time selections are indices taken modulo what exists then."""
-    L = rng.randint(3, maxlen)
+def gen_sequence(rng, maxlen, ident=False):
+    """A concrete, JSON-able op list; run-time selections are indices taken modulo what exists then.
+
+    ident=True: the identity-focused mix (write | new | load | adopt | history, few plain mutations, no merge/split).
+    """
+    L = rng.randint(5 if ident else 3, maxlen)
     labels_on = rng.random() < 0.5
     edge = [0, 1, 2, 9, 10, 11, 98, 99]
     pool = []
@@ -346,19 +369,49 @@ def gen_sequence(rng, maxlen):
             lab = rng.choice(["EOL", "error", debug_label(c, n)])
         return ["write", c, n, lab]
 
+    def new():
+        return ["new", "core" if rng.random() < 0.5 else "sfp", value()]
+
+    def hist():
+        kind = rng.choice(["assem", "block"])
+        names = WATCH["Assembly"] + ["location"] if kind == "assem" else WATCH["Block"]
+        params = sorted(rng.sample(names, rng.randint(1, len(names))))
+        return ["hist", kind, 7 if rng.random() < 0.6 else rng.randint(1, 6), params, None if rng.random() < 0.5 else rng.randint(1, 63)]
+
+    if ident:
+        if rng.random() < 0.6:  # a later snapshot that holds an object the earlier one lacks, then anything
+            ops += [write(), new(), write()]
+        for i in range(len(ops), L):
+            k = rng.random()
+            if i == 0 or k < 0.20:
+                ops.append(write())
+            elif k < 0.50:
+                ops.append(new())
+            elif k < 0.68:
+                ops.append(["load", rng.randrange(1000)])
+            elif k < 0.82:
+                ops.append(["adopt", rng.randrange(1000)])
+            elif k < 0.94:
+                ops.append(hist())
+            else:
+                j = rng.randrange(6)  # also the objects made by `new` (index modulo what exists)
+                ops.append(["mut", "block", j, rng.choice(WATCH["Block"]), value()] if rng.random() < 0.6 else ["mut", "assem", j, "chargeTime", value()])
+        return ops
+
     for i in range(L):
         k = rng.random()
         if i == 0 or k < 0.30:
             ops.append(write())
-        elif k < 0.58:
+        elif k < 0.52:
             ops.append(mutate())
+        elif k < 0.56:
+            ops.append(new())
+        elif k < 0.58:
+            ops.append(["adopt", rng.randrange(1000)])
         elif k < 0.70:
             ops.append(["load", rng.randrange(1000)])
         elif k < 0.84:
-            kind = rng.choice(["assem", "block"])
-            names = WATCH["Assembly"] + ["location"] if kind == "assem" else WATCH["Block"]
-            params = sorted(rng.sample(names, rng.randint(1, len(names))))
-            ops.append(["hist", kind, 7 if rng.random() < 0.6 else rng.randint(1, 6), params, None if rng.random() < 0.5 else rng.randint(1, 63)])
+            ops.append(hist())
         elif k < 0.92:
             if rng.random() < 0.7:
                 ops.append(["merge", "at", rng.randrange(1000)])
@@ -378,6 +431,14 @@ class SeqRun:
         self.stale_hist_shift = 0  # cycle offset applied by a split (group attrs keep the old cycle)
         self.readbacks = 0
         self.at = -1
+        # identity bookkeeping, independent of armi's serial numbers: every tracked assembly (and its block) has a harness id
+        self.auid = []  # harness ids, parallel to self.assems / self.blocks
+        self.origin = {}  # harness id -> "initial" | circumstance of its creation by a `new` op
+        self.present = {}  # (cycle, node, label) -> {"assem": {harness id: serial at that write}, "block": {...}}
+        self.ever_stored = {}  # serial number -> [type, first snapshot key] for every object ever written to the database
+        self.loads = 0  # snapshots loaded from the database so far (load ops, merged-db read-backs, adopts)
+        self.loaded_older = False  # ... one of them lacked objects that a later-written snapshot holds
+        self.adopted = False  # the live reactor is one that was loaded from the database
 
     def inp(self, **kw):
         d = {"clause": "seq", "ops": self.ops, "failed_at_op": self.at}
@@ -390,6 +451,24 @@ class SeqRun:
 
     def labelled_at(self, cn):
         return [lab for (c, n, lab) in self.model if (c, n) == cn and lab != ""]
+
+    def circ(self):
+        """Circumstance of a creation / write, part of the ident.* and hist.ghost-step.* violation ids."""
+        return "in-loaded-reactor" if self.adopted else ("after-load" if self.loads else "no-load")
+
+    def refresh(self):
+        self.blocks = [a[0] for a in self.assems]
+        self.fuels = [next(c for c in b if c.name == "fuel") for b in self.blocks]
+
+    def note_load(self, key):
+        self.loads += 1
+        STATS["loads_total"] += 1
+        if key in self.model and set(self.ever_stored) - set(self.model[key]):
+            self.loaded_older = True  # the snapshot lacks objects that exist in other snapshots
+            STATS["loads_of_older_snapshot"] += 1
+
+    def live_value(self, obj, p):
+        return [int(i) for i in obj.spatialLocator.indices] if p == "location" else jsonable(obj.p[p])
 
     def check_listing(self, db, where):
         listed = [tuple(int(i) for i in s) for s in db.genTimeSteps()]
@@ -412,10 +491,12 @@ class SeqRun:
             r2 = db.load(c, n, cs=cs, bp=bp, statePointName=lab or None)
         except Exception as e:  # noqa: BLE001
             vio(False, "snap.load-failed", "loading a written snapshot raised", self.inp(where=where, key=list(key), error=repr(e)))
-            return
+            return None
+        self.note_load(key)
         d = fp_diff(expected if expected is not None else self.model[key], fingerprint(r2))
         vio(not d, "snap.isolation", "loaded snapshot differs from the state recorded when it was written "
             "[serial, type, what, recorded, loaded]", self.inp(where=where, key=list(key), diffs=d))
+        return None if d else r2
 
     # -- ops ----------------------------------------------------------------------------------------------------------
     def op_mut(self, op):
@@ -423,13 +504,16 @@ class SeqRun:
         if kind == "core":
             self.r.core.p[op[2]] = op[3]
         elif kind == "assem":
-            self.assems[op[2]].p[op[3]] = op[4]
+            self.assems[op[2] % len(self.assems)].p[op[3]] = op[4]
         elif kind == "block":
-            self.blocks[op[2]].p[op[3]] = op[4]
+            self.blocks[op[2] % len(self.blocks)].p[op[3]] = op[4]
         elif kind == "nd":
-            self.fuels[op[2]].setNumberDensity(op[3], op[4])
+            self.fuels[op[2] % len(self.fuels)].setNumberDensity(op[3], op[4])
         elif kind == "swap":
-            a1, a2 = self.assems[op[2]], self.assems[op[3]]
+            a1, a2 = self.assems[op[2] % len(self.assems)], self.assems[op[3] % len(self.assems)]
+            if a1 is a2 or a1.parent is not self.r.core or a2.parent is not self.r.core:
+                STATS["swaps_skipped_not_both_in_core"] += 1
+                return
             l1 = a1.spatialLocator
             a1.moveTo(a2.spatialLocator)
             a2.moveTo(l1)
@@ -453,12 +537,24 @@ class SeqRun:
             vio(not d, "snap.overwrite-intact", "a refused second write changed the first snapshot (datasets listed)", self.inp(key=list(key), changed=d))
         else:
             rec = fingerprint(self.r)
+            objs = all_objects(self.r)
+            if len(rec) != len(objs):  # the oracle itself is keyed by serial number: objects sharing one cannot be told apart
+                cnt = collections.Counter(int(x.p.serialNum) for x in objs)
+                shared = {sn: [repr(x) for x in objs if int(x.p.serialNum) == sn] for sn in sorted(cnt) if cnt[sn] > 1}
+                vio(False, "ident.serial-shared-in-snapshot." + self.circ(), "the objects of the reactor about to be written do not have "
+                    "pairwise distinct serial numbers (histories and loads match objects by serial number)",
+                    self.inp(key=list(key), shared_serials=dict(list(shared.items())[:6]), loaded_older_snapshot_before=self.loaded_older))
+                raise StopSeq()
             try:
                 self.db.writeToDB(self.r, lab or None)
             except Exception as e:  # noqa: BLE001
                 vio(False, "snap.write-failed", "writing a fresh (cycle,node,label) raised", self.inp(key=list(key), error=repr(e)))
                 return
             self.model[key] = rec
+            self.present[key] = {"assem": {u: int(a.p.serialNum) for u, a in zip(self.auid, self.assems)},
+                                 "block": {u: int(b.p.serialNum) for u, b in zip(self.auid, self.blocks)}}
+            for sn, d in rec.items():
+                self.ever_stored.setdefault(sn, [d["type"], list(key)])
             STATS["writes"] += 1
             STATS["labelled_writes"] += bool(lab)
         vio(self.db.hasTimeStep(c, n, lab), "snap.has", "hasTimeStep is False for a written snapshot", self.inp(key=list(key)))
@@ -470,12 +566,126 @@ class SeqRun:
         keys = sorted(self.model)
         self.check_load(self.db, keys[op[1] % len(keys)], "load op")
 
+    def op_adopt(self, op):
+        """Load a written snapshot and carry on with the LOADED reactor as the live one (restart / look-back style)."""
+        if not self.model:
+            return
+        keys = sorted(self.model)
+        key = keys[op[1] % len(keys)]
+        r2 = self.check_load(self.db, key, "adopt op")
+        if r2 is None:
+            raise StopSeq()  # reported by check_load; no trustworthy reactor to carry on with
+        by_sn = {int(o.p.serialNum): o for o in all_objects(r2)}
+        pres = self.present[key]
+        keep = [(u, by_sn[pres["assem"][u]]) for u in self.auid if u in pres["assem"]]  # objects made after that write are gone
+        bad = [u for u, a in keep if int(a[0].p.serialNum) != pres["block"][u]]
+        vio(not bad, "snap.isolation", "in the loaded snapshot the first block of an assembly is not the object that was its first block at the write",
+            self.inp(where="adopt op", key=list(key), assemblies=[pres["assem"][u] for u in bad]))
+        self.r = r2
+        self.auid = [u for u, _a in keep]
+        self.assems = [a for _u, a in keep]
+        self.refresh()
+        self.adopted = True
+        STATS["adopts"] += 1
+
+    def ghost_check(self, kind, obj, uid, got, p, absent_steps, now, why, claimed=(), unfiltered=True):
+        """History entries of `obj` at steps at which it did not exist: none, except the current step with its own live value.
+
+        claimed: history keys that steps at which the object DID exist may legitimately (or by the known stale-cycle-after-split
+        defect, reported as split.history-keys) use; unfiltered: the query named no time steps (labelled snapshots are then
+        visited too, reported as hist.label-shadow).
+        """
+        ok = True
+        for step in absent_steps:
+            keys = [step] + ([(step[0] + self.stale_hist_shift, step[1])] if self.stale_hist_shift else [])
+            cn = next((k for k in keys if k in got and k not in claimed), None)
+            if cn is None:
+                continue
+            v = got[cn]
+            if cn == now and same(self.live_value(obj, p), v):
+                continue  # the current step is appended from the live reactor by design
+            labs = [lab for lab in self.labelled_at(step) if unfiltered and uid in self.present[step + (lab,)][kind]]
+            if labs:  # made between the label-less and the labelled write at this (cycle,node): the labelled snapshot shows through
+                vio(False, "hist.label-shadow", "history has a value at a (cycle,node) at which the object did not exist at the label-less write; "
+                    "it comes from the LABELLED snapshot at that (cycle,node)", self.inp(where=why, obj=int(obj.p.serialNum), param=p, step=list(step),
+                                                                                      label=labs[0], returned=jsonable(v)))
+                continue
+            owner = None
+            rec = self.model.get(step + ("",), {}).get(int(obj.p.serialNum))
+            if rec is not None:
+                owner = {"serial": int(obj.p.serialNum), "type": rec["type"], "value_at_step": rec.get("loc") if p == "location" else rec.get("p:" + p)}
+            ok = vio(False, "hist.ghost-step." + self.origin[uid], "history of an object has an entry for a step at which this object did not exist "
+                     "(it was made after that write); the value is the one of ANOTHER object stored under the same serial number" if owner else
+                     "history of an object has an entry for a step at which this object did not exist (it was made after that write)",
+                     self.inp(where=why, type=kind, harness_id=uid, serial=int(obj.p.serialNum), param=p, step=list(step), history_key=list(cn), returned=jsonable(v),
+                              live_value=self.live_value(obj, p), current_step=list(now), stored_object_with_that_serial=owner,
+                              loaded_older_snapshot_before=self.loaded_older))
+        return ok
+
+    def op_new(self, op):
+        """A fresh assembly is fabricated in the live reactor (core position or spent fuel pool) between writes."""
+        where, v = op[1], op[2]
+        circ = self.circ()
+        live = collections.Counter(int(x.p.serialNum) for x in all_objects(self.r))
+        a = self.r.core.createAssemblyOfType("igniter fuel", cs=self.o.cs)
+        if where == "core":
+            k = next(k for k in range(3, 100) if self.r.core.childrenByLocator.get(self.r.core.spatialGrid[k, 0, 0]) is None)
+            self.r.core.add(a, self.r.core.spatialGrid[k, 0, 0])
+        else:
+            self.r.excore["sfp"].add(a)
+        b = a[0]
+        a.p.chargeTime = v  # recognisable values; percentBu / THhotChannelCladODT / THmassFlowRate stay unset (defaults)
+        a.p.notes = "new-%d" % int(v)
+        b.p.flux = v + 0.25
+        b.p.power = v + 0.5
+        uid = max(self.origin) + 1
+        self.origin[uid] = "new-" + circ
+        self.auid.append(uid)
+        self.assems.append(a)
+        self.refresh()
+        STATS["new_objects"] += 1
+        STATS["new_objects_" + circ] += 1
+        STATS["new_objects_after_load_of_older_snapshot"] += self.loaded_older
+        made = [a] + list(a.iterChildren(deep=True))
+        sns = [int(x.p.serialNum) for x in made]
+        ctx = dict(created=where, harness_id=uid, new_serials=[min(sns), max(sns)], loaded_older_snapshot_before=self.loaded_older, snapshots_loaded_before=self.loads)
+        # (a) never the serial number of another live object (nor twice within the new assembly)
+        shared = sorted(sn for sn in set(sns) if live[sn] or sns.count(sn) > 1)
+        okLive = vio(not shared, "ident.serial-shared-live." + circ, "a newly made object carries the serial number of another object of the live reactor",
+                     self.inp(shared_serials=shared[:12], **ctx))
+        # (b) never the serial number of an object stored in any snapshot of the database
+        reused = sorted(sn for sn in set(sns) if sn in self.ever_stored)
+        okStored = vio(not reused, "ident.serial-reused-stored." + circ, "a newly made object carries a serial number that already identifies another "
+                       "object stored in a snapshot of the database [serial, type of the stored object, first snapshot holding it]",
+                       self.inp(reused=[[sn] + self.ever_stored[sn] for sn in reused[:12]], **ctx))
+        # (c) queried right away: it existed at none of the written steps
+        steps = self.plain_steps()
+        if steps:
+            now = (int(self.r.p.cycle), int(self.r.p.timeNode))
+            try:
+                ha = self.db.getHistories([a], ALLA)
+                hb = self.db.getHistories([b], WATCH["Block"])
+            except Exception as e:  # noqa: BLE001
+                vio(False, "hist.failed", "getHistories raised on written steps", self.inp(where="new op", error=repr(e)))
+                raise StopSeq()
+            self.readbacks += 1
+            STATS["ghost_history_queries"] += 1
+            for kind, obj, h, params in (("assem", a, ha, ALLA), ("block", b, hb, WATCH["Block"])):
+                for p in params:
+                    got = {(int(k[0]), int(k[1])): x for k, x in h[obj][p].items()}
+                    STATS["hist_values_compared"] += len(steps)
+                    self.ghost_check(kind, obj, uid, got, p, sorted(set(got) | set(steps)), now, "new op")
+        if not (okLive and okStored):
+            raise StopSeq()  # the oracle matches by serial number too; what follows would only repeat this failure
+
     def op_hist(self, op):
         kind, objmask, params, stepmask = op[1], op[2], op[3], op[4]
         steps = self.plain_steps()
         if not steps:
             return
-        objs = [o for i, o in enumerate(self.assems if kind == "assem" else self.blocks) if objmask >> i & 1]
+        # bit i of the mask selects the i-th of the three initial objects; objects made by `new` ride on bit (index mod 3)
+        sel = [(o, u) for i, (o, u) in enumerate(zip(self.assems if kind == "assem" else self.blocks, self.auid)) if objmask >> (i % 3) & 1]
+        objs = [o for o, _u in sel]
         if not objs:
             return
         timeSteps = None
@@ -489,12 +699,22 @@ class SeqRun:
         self.readbacks += 1
         now = (int(self.r.p.cycle), int(self.r.p.timeNode))
         wanted = timeSteps if timeSteps is not None else steps
-        for o in objs:
-            sn = int(o.p.serialNum)
+        for o, uid in sel:
             for p in params:
                 got = {(int(k[0]), int(k[1])): v for k, v in hist[o][p].items()}
+                absent = [cn for cn in wanted if uid not in self.present[cn + ("",)][kind]]
+                STATS["hist_values_compared"] += len(absent)
+                STATS["hist_absent_steps_checked"] += len(absent)
+                claimed = set()
                 for cn in wanted:
+                    if cn not in absent:
+                        claimed |= {cn, (cn[0] + self.stale_hist_shift, cn[1])}
+                self.ghost_check(kind, o, uid, got, p, absent, now, "hist op", claimed, timeSteps is None)
+                for cn in wanted:
+                    if cn in absent:
+                        continue
                     STATS["hist_values_compared"] += 1
+                    sn = self.present[cn + ("",)][kind][uid]  # the serial number this very object had at that write
                     rec = self.model[cn + ("",)][sn]
                     exp = rec["loc"] if p == "location" else rec["p:" + p]
                     if cn not in got:
@@ -508,7 +728,7 @@ class SeqRun:
                     v = got[cn]
                     if same(exp, v):
                         continue
-                    shadow = [lab for lab in self.labelled_at(cn) if timeSteps is None and same(
+                    shadow = [lab for lab in self.labelled_at(cn) if timeSteps is None and sn in self.model[cn + (lab,)] and same(
                         (self.model[cn + (lab,)][sn]["loc"] if p == "location" else self.model[cn + (lab,)][sn]["p:" + p]), v)]
                     if shadow:
                         vio(False, "hist.label-shadow", "history value at (cycle,node) is the one of the LABELLED snapshot at that "
@@ -517,6 +737,7 @@ class SeqRun:
                     else:
                         vio(False, "hist.value", "history value != value the same object (by serial number) had at that step",
                             self.inp(obj=sn, type=kind, param=p, step=list(cn), at_step=exp, returned=jsonable(v)))
+                sn = int(o.p.serialNum)
                 for cn in got:
                     if cn in wanted or cn == now:
                         continue  # 'now' is appended from the live reactor by design (not a stored step)
@@ -607,6 +828,7 @@ class SeqRun:
                     d = raw_diff(before[k], raw_group(full[k]))
                     vio(not d, "split.backup", "a snapshot in the backup file differs from the original", self.inp(keep=keep, group=k, changed=d))
         self.model = newmodel
+        self.present = {(c - minc, n, ""): self.present[(c, n, "")] for c, n in keep}
         self.stale_hist_shift += minc
         self.check_listing(self.db, "after split")
 
@@ -619,8 +841,9 @@ class SeqRun:
                 a = r.core.createAssemblyOfType("igniter fuel")
                 r.core.add(a, r.core.spatialGrid[k + 1, 0, 0])
             self.assems = list(r.core)
-            self.blocks = [a[0] for a in self.assems]
-            self.fuels = [next(c for c in b if c.name == "fuel") for b in self.blocks]
+            self.auid = list(range(len(self.assems)))
+            self.origin = {u: "initial" for u in self.auid}
+            self.refresh()
             for i, (a, b) in enumerate(zip(self.assems, self.blocks)):  # make the objects distinguishable
                 a.p.chargeTime = 10.0 * (i + 1)
                 a.p.notes = "assembly-%d" % i
@@ -670,12 +893,23 @@ SCRIPTED = [  # run in both tiers before the seeded ones: one short scenario per
     [["write", 0, 0, ""], ["mut", "core", "keff", 1.0123], ["write", 0, 2, ""], ["merge", "cn", 0, 1]],
     # history after a split that renumbers the cycles
     [["write", 3, 0, ""], ["mut", "assem", 0, "chargeTime", 1212.5], ["write", 4, 0, ""], ["split", 3], ["hist", "assem", 7, ["chargeTime"], None]],
+    # identity across snapshots when objects are made between writes: write / new A / write / look back at the OLDER snapshot /
+    # new B in the live reactor / query: B shares no serial number with A (stored at (0,1)) and has no history at (0,0), (0,1)
+    [["write", 0, 0, ""], ["new", "sfp", 13000.5], ["write", 0, 1, ""], ["load", 0], ["new", "sfp", 14000.5], ["hist", "block", 7, WATCH["Block"], None]],
+    # the same with the LOADED older snapshot as the reactor that is carried on with (restart style), B is written too
+    [["write", 0, 0, ""], ["new", "core", 15000.5], ["write", 0, 1, ""], ["adopt", 0], ["new", "sfp", 16000.5], ["write", 0, 2, ""], ["hist", "assem", 7, ALLA, None]],
+    # ... B made at the core position A occupies in the later snapshot, steps selected explicitly, blocks queried
+    [["write", 1, 0, ""], ["new", "core", 17000.5], ["write", 1, 1, ""], ["adopt", 0], ["new", "core", 18000.5], ["write", 1, 2, ""], ["hist", "block", 7, ["flux", "power"], 7]],
+    # a new object that then moves: identity after the move, no history before it existed; an older snapshot loaded in between
+    [["write", 0, 0, ""], ["new", "core", 19000.5], ["write", 0, 1, ""], ["load", 0], ["mut", "swap", 0, 3], ["write", 0, 2, ""], ["hist", "assem", 7, ALLA, None]],
 ]
 
 
-def clause_sequences(nseq, maxlen):
+def clause_sequences(ngeneral, nident, maxlen, maxlen_ident):
+    """All scripted scenarios, then `ngeneral` seeded sequences of the general mix, then `nident` of the identity-focused mix."""
+    nseq = len(SCRIPTED) + ngeneral + nident
     for i in range(nseq):
-        ops = SCRIPTED[i] if i < len(SCRIPTED) else gen_sequence(B.rng, maxlen)
+        ops = SCRIPTED[i] if i < len(SCRIPTED) else gen_sequence(B.rng, maxlen) if i < len(SCRIPTED) + ngeneral else gen_sequence(B.rng, maxlen_ident, ident=True)
         run = SeqRun(ops)
         try:
             nontrivial = run.run()
@@ -959,7 +1193,10 @@ def main():
     clause_abort(B.thorough())
     B.extra["wall_abort_s"] = round(time.time() - t, 2)
     t = time.time()
-    clause_sequences(600 if B.thorough() else 30, 10 if B.thorough() else 6)
+    if B.thorough():
+        clause_sequences(591, 120, 10, 10)
+    else:
+        clause_sequences(21, 8, 6, 8)
     B.extra["wall_sequences_s"] = round(time.time() - t, 2)
     finish()
     B.finish(exhaustive=False)
